@@ -1,5 +1,5 @@
 (* C17 - The previous durable image stays intact until the switch-over. *)
-From Nomt Require Import Base SyncProto SyncProto_proofs SrcFacts_proofs.
+From Nomt Require Import Base SyncProto SyncProto_proofs.
 
 (* For every trace accepted by the monitor: at every cut up to the manifest's fsync and in EVERY
    power-loss image (hence also in the volatile state), every page the old image references
@@ -12,10 +12,6 @@ Theorem C17_old_image_intact : forall I d0 tr,
   pages_ok img (live_old I) = true /\ ht_all img (ht_old I) = true.
 Proof. exact SyncProto_proofs.old_image_intact. Qed.
 Print Assumptions C17_old_image_intact.
-
-Theorem C17_sync_phase_order : sync_order_ok = true /\ sync_order_ok2 = true.
-Proof. exact SrcFacts_proofs.sync_order_ok_true. Qed.
-Print Assumptions C17_sync_phase_order.
 
 (* ------------------------------------------------------------------------------------------ *)
 (* ... "its rollback records": the segmented rollback log (RbProto.v: a directory of append-only *)
